@@ -20,10 +20,11 @@ DEV_STOP = "stop-running-basic-nil-processstate"
 DEV_REAPER = "kill-races-with-reaper-start"
 
 KINDS = ["basic", "hook", "ctl"]
-BEHS = ["sleep", "ignore", "fork", "exit0", "exit3", "crash", "noready", "stuck", "done0", "done3", "donesig", "nodone"]
+BEHS = ["sleep", "ignore", "fork", "exit0", "exit3", "crash", "noready", "stuck", "done0", "done3", "donesig", "nodone", "fmq",
+        "midstate"]
 REQS = ["CONFIGURE", "START", "STOP", "Trigger", "Kill"]
 INSTS = ["launching", "nochild", "starting", "polling", "running", "exiting", "reaped"]
-NTHS = [1, 2]   # first / repeated request of its type
+NTHS = [1, 2, 3]   # first / repeated back to back / repeated after a terminal status had been reported
 INVS = ["OneTerminal", "KilledNotFailed", "NoSurvivors", "ExecutorSurvives"]
 IMPL = {"basic": "basicTaskBase", "hook": "basicTaskBase", "ctl": "ControllableTask"}
 WORKERS = min(8, vlib.NCPU)
@@ -113,7 +114,7 @@ def scn_from_gen(sid, rec):
     bad = sorted(tuple(b) for b in rec["bad"]["$set"])
     cls = "%s/%s/%s%s" % (rec["kind"], rec["beh"], "+".join("%s@%s%s" % (r, w, "" if a == "calm" else ":" + a)
                                                            for (r, w, a) in plan) or "-",
-                          "/deep" if rec["deep"] else "")
+                          ("/deep" if rec["deep"] else "") + ("/hold" if rec["hold"] and rec["kind"] != "ctl" else ""))
     return {"id": sid, "kind": rec["kind"], "beh": rec["beh"], "hold": bool(rec["hold"]), "steps": steps, "cls": cls,
             "plan": plan, "predicted": [list(b) for b in bad], "origin": "generated"}
 
@@ -193,7 +194,7 @@ def _run(ctx, replay_scn):
     b4 = ["sleep", "fork", "exit3", "crash"]
     if quick:
         runs = [("basic", 3, b4, ["START", "STOP", "Kill"]), ("hook", 3, b4, None),
-                ("ctl", 2, ["sleep", "fork", "noready", "stuck", "done3", "nodone"], None)]
+                ("ctl", 2, ["fork", "noready", "stuck", "done3", "nodone", "midstate"], None)]
     else:
         # (controllable tasks: the Kill goroutine has seven steps; three overlapping requests are beyond 20M states,
         #  so their exhaustive bound stays at two requests at any instant - the replayed plans add the
@@ -245,7 +246,10 @@ def _run(ctx, replay_scn):
         single = [s for s in allscn if len(s["plan"]) <= 1]
         double = [s for s in allscn if len(s["plan"]) == 2]
         rng.shuffle(double)
-        chosen = single + double[:90]
+        # every plan in which a second Kill of a basic / hook task comes after the first one is done while its
+        # TASK_FINISHED is still queued; a seeded sample of the other pairs
+        late = [s for s in double if s["cls"].endswith("/hold")]
+        chosen = single + late + [s for s in double if not s["cls"].endswith("/hold")][:50]
     else:
         chosen = list(allscn)
         # racy instants: repeat, the recorded facts say which order actually occurred
@@ -302,7 +306,7 @@ def _run(ctx, replay_scn):
         s = by_id.get(scn, {})
         observed.setdefault(scn, set()).add(inv)
         sig = {"inv": inv, "kind": s.get("kind"), "impl": IMPL.get(s.get("kind")), "beh": s.get("beh"), "r": det[0], "inst": det[1],
-               "nth": min(det[2], 2), "site": re.sub(r"(\.func[0-9]+)+$", "", det[3])}   # closures count as their method
+               "nth": det[2] if det[2] <= 1 else (3 if det[4] else 2), "site": re.sub(r"(\.func[0-9]+)+$", "", det[3])}   # closures count as their method
         key = (scn, json.dumps(sig, sort_keys=True))
         if key in seen:
             continue
